@@ -5,6 +5,7 @@ import (
 	"go/ast"
 	"regexp"
 	"sort"
+	"strconv"
 	"strings"
 
 	"pigeonverif/internal/absint"
@@ -293,11 +294,7 @@ func c11cde(c *Ctx, v *variants.Variant) {
 		r.Fatal("variant %s: errList.err missing", vn)
 	}
 	if pf := v.Func("", "Parse"); pf != nil {
-		ok := len(pf.Body.List) == 1
-		if ok {
-			rs, isRet := pf.Body.List[0].(*ast.ReturnStmt)
-			ok = isRet && len(rs.Results) == 1 && strings.HasPrefix(nospace(rs.Results[0]), "newParser(") && strings.HasSuffix(nospace(rs.Results[0]), ").parse(g)")
-		}
+		ok, _ := parseForwards(c, v)
 		r.Check(ok, "C11-c", "T.Parse:forwards", vn, v.Where(pf.Pos()), "return newParser(...).parse(g)", "Parse does not forward parse()'s results unchanged")
 	}
 	// ---- d
@@ -638,7 +635,7 @@ func prefixSemantics(c *Ctx, v *variants.Variant, fd *ast.FuncDecl, posP string)
 			bad = append(bad, "a path does not test whether a rule is being evaluated")
 		}
 		got := tokens(pieces)
-		if strings.Join(got, " ") != strings.Join(want, " ") {
+		if flattenTextTokens(got) != flattenTextTokens(want) {
 			bad = append(bad, "the prefix is ["+strings.Join(got, " ")+"] on the path ["+strings.Join(p.facts(), " ")+"], expected ["+strings.Join(want, " ")+"]")
 		}
 	}
@@ -646,4 +643,74 @@ func prefixSemantics(c *Ctx, v *variants.Variant, fd *ast.FuncDecl, posP string)
 		bad = append(bad, "no feasible path builds a prefix")
 	}
 	return uniq(bad)
+}
+
+// flattenTextTokens renders a sequence of text pieces (string literals and expressions) so that only the text they
+// produce matters: an integer-and-string-only fmt.Sprintf is expanded into its pieces (%d of x is strconv.Itoa(x)),
+// adjacent literals are merged.
+func flattenTextTokens(toks []string) string {
+	var flat []string
+	for _, tk := range toks {
+		if strings.HasPrefix(tk, "fmt.Sprintf(") && wholeCall(tk) {
+			args := splitTop(tk[len("fmt.Sprintf("):len(tk)-1], ",")
+			if f, err := strconv.Unquote(args[0]); err == nil {
+				rest := args[1:]
+				lit := ""
+				okExp := true
+				var exp []string
+				for i := 0; i < len(f); i++ {
+					if f[i] != '%' {
+						lit += string(f[i])
+						continue
+					}
+					if i+1 >= len(f) {
+						okExp = false
+						break
+					}
+					i++
+					switch f[i] {
+					case '%':
+						lit += "%"
+					case 'd', 's':
+						if len(rest) == 0 {
+							okExp = false
+							break
+						}
+						if lit != "" {
+							exp = append(exp, strconv.Quote(lit))
+							lit = ""
+						}
+						if f[i] == 'd' {
+							exp = append(exp, "strconv.Itoa("+rest[0]+")")
+						} else {
+							exp = append(exp, rest[0])
+						}
+						rest = rest[1:]
+					default:
+						okExp = false
+					}
+				}
+				if lit != "" {
+					exp = append(exp, strconv.Quote(lit))
+				}
+				if okExp && len(rest) == 0 {
+					flat = append(flat, exp...)
+					continue
+				}
+			}
+		}
+		flat = append(flat, tk)
+	}
+	// merge adjacent literals
+	var out []string
+	for _, tk := range flat {
+		if s, err := strconv.Unquote(tk); err == nil && strings.HasPrefix(tk, `"`) && len(out) > 0 {
+			if prev, err2 := strconv.Unquote(out[len(out)-1]); err2 == nil && strings.HasPrefix(out[len(out)-1], `"`) {
+				out[len(out)-1] = strconv.Quote(prev + s)
+				continue
+			}
+		}
+		out = append(out, tk)
+	}
+	return strings.Join(out, " ")
 }
